@@ -14,7 +14,7 @@ every slot and patch validity by bitmap algebra, exactly like the code:
   select_op  : c = s_raw & sv; raw = if c then a_raw else b_raw; valid = (c & av) | (!c & bv)
   and        : c = binary_op(&&); valid |= (!ra & va) | (!rb & vb)
   or         : c = binary_op(||); valid |= raw(c)
-  div        : safen_dividend(b) then binary_op(/);   rem: binary_op(%) (no safening)
+  div, rem   : safen_dividend(b) then binary_op(/ or %)   (rem safened since /repo f444b3f)
 
 Integer raw values are `Int`s constrained to the width of the array (`IW`); arithmetic is the
 DEBUG build's (`+ - *` and unary `-` panic on overflow; `/ %` panic on a zero divisor and on
@@ -258,9 +258,14 @@ def Col.len : Col → Nat
   | .int _ a => a.length
   | .str a => a.length
 
-/-- Integer arm of `arith!` at promoted width `w`; `div` goes through `safen_dividend`. -/
+/-- `div` and (since /repo f444b3f) `rem` pass the divisor through `safen_dividend`. -/
+def ArithOp.safens : ArithOp → Bool
+  | .div | .rem => true
+  | _ => false
+
+/-- Integer arm of `arith!` at promoted width `w`; `div` / `rem` go through `safen_dividend`. -/
 def arithK (op : ArithOp) (w : IW) (a b : Arr Int) : KOut (Arr Int) :=
-  binaryOp (op.raw w) a (if op == .div then safenDividend b else b)
+  binaryOp (op.raw w) a (if op.safens then safenDividend b else b)
 
 /-- One arm of `cmp!`: `clear_null(binary_op(a, b, f))`. -/
 def cmpK {α} (f : α → α → Bool) (a b : Arr α) : KOut (Arr Bool) :=
